@@ -110,3 +110,11 @@ CHECKS += [
 
 _claimed = {c["property_id"] for c in CHECKS}
 NOT_APPLICABLE = [dict(property_id=p, reason="check not built yet in this revision (framework under construction; see DESIGN.md build order)") for p in ALL if p not in _claimed]
+
+CHECKS += [
+    dict(property_id="C16", category="exploration",
+         text="Four generated checks on the real code. (1) findBestStreamFrom over generated stream_from maps (chains, cycles through the replica, self-references, references to HA hosts), ancestor health/lag/offline combinations and 'already streaming' against a reference resolver written from the statement, with never-self and termination (watchdog) asserted separately. (2) the guarded move: the real repairSlaveNode on states collected by getClusterStateFromDB from fake servers whose transaction sets are drawn independently (behind/equal/ahead/diverged relations); every CHANGE SOURCE reaching a cascade replica that has a channel is judged against ground truth at the instant it arrives. (3) metamorphic check of the HA counting helpers: deleting the cascade hosts from the observed state changes no count. (4) whole-cluster simulation with cascade replicas, source crashes, lagging sources and stream_from rewrites: same instant-of-move oracle, and no cascade host in active_nodes after any round. 'Never promoted' is reported by the promotion monitor shared with C01/C02/C05/C07, whose generators include cascade replicas.",
+         design_ref="DESIGN.md section 4, C16",
+         note="Trusted: the fake servers' transaction sets are the ground truth; the aggressive-repair path (reset + re-point at the master) is not enabled in these runs.",
+         technique="property-based testing with a reference resolver (model oracle), a metamorphic relation on the counting helpers, and an instant-of-effect invariant over generated transaction-set relations and simulated histories"),
+]
